@@ -116,9 +116,16 @@ func (l *baseLeaf) URLPath(vals map[string]string, withOptional bool) string {
 				continue
 			}
 
-			buf.WriteString("{")
-			buf.WriteString(e.BindParameters.Parameters[0].Ident)
-			buf.WriteString("}")
+			for i, p := range e.BindParameters.Parameters {
+				// Only the first one is the bind parameter in a match all style, e.g. the
+				// "capture" is not in "{paths: **, capture: 2}".
+				if i > 0 && e.BindParameters.Parameters[0].Value.Regex == nil {
+					break
+				}
+				buf.WriteString("{")
+				buf.WriteString(p.Ident)
+				buf.WriteString("}")
+			}
 		}
 	}
 
